@@ -6,6 +6,7 @@ package rpc
 
 import (
 	"context"
+	"time"
 
 	"capnproto.org/go/capnp/v3"
 	rpccp "capnproto.org/go/capnp/v3/std/capnp/rpc"
@@ -26,10 +27,38 @@ type vTransport struct {
 	delivered                        []rpccp.Message_Which // messages whose send succeeded
 	conn                             *Conn
 	onSend                           func(w rpccp.Message_Which) // runs inside send, where another goroutine could run
+	callerCtxSeen, otherCtxSeen      int                         // NewMessage calls with / without the caller's context (see vCallerCtx)
+}
+
+type vCtxKey struct{}
+
+// vMarked is a context that answers Value(vCtxKey{}) - and so does every context derived from it
+type vMarked struct{ parent context.Context }
+
+func (c *vMarked) Deadline() (time.Time, bool) { return c.parent.Deadline() }
+func (c *vMarked) Done() <-chan struct{}       { return c.parent.Done() }
+func (c *vMarked) Err() error                  { return c.parent.Err() }
+func (c *vMarked) Value(k interface{}) interface{} {
+	if _, ok := k.(vCtxKey); ok {
+		return 1
+	}
+	return c.parent.Value(k)
+}
+
+// vCallerCtx marks a context as the caller's: the transport counts which NewMessage calls were made
+// under it (a send made on behalf of a caller must be bounded by that caller's context)
+func vCallerCtx() (context.Context, context.CancelFunc) {
+	ctx, cancel := context.WithCancel(context.Background())
+	return &vMarked{parent: ctx}, cancel
 }
 
 func (t *vTransport) NewMessage(ctx context.Context) (rpccp.Message, func() error, capnp.ReleaseFunc, error) {
 	t.newMsgs++
+	if ctx.Value(vCtxKey{}) != nil {
+		t.callerCtxSeen++
+	} else {
+		t.otherCtxSeen++
+	}
 	if t.conn != nil {
 		vAssert(vLocksHeld() == 0, "C09.transport.NewMessage-called-without-conn-mutex")
 		// (the Abort message of shutdown is created after all tasks have drained, without the lock)
